@@ -113,7 +113,7 @@ func (c *syncMap) ExpireAll(ctx context.Context) {
 	c.data.Range(func(key, value interface{}) bool {
 		cacheEntry := value.(*TraitEntry) //nolint // Panic on type assertion failure is fine here.
 
-		atomic.StoreInt64(&cacheEntry.E, startTS) // Entry may be in use by concurrent readers.
+		c.expireEntry(key, cacheEntry, startTS)
 		cnt++
 
 		return true
